@@ -671,8 +671,6 @@ class Gen:
         if self.r.chance(1, 8):
             b = "MAX" if self.r.chance(3, 4) else SIZE_MAX
         ext = self.r.chance(1, 4)
-        if a in ("MIN", 0) and b in ("MAX", SIZE_MAX) and ext:
-            ext = False          # `SIZE(0..MAX, ...)` is rejected: family `unsupported`
         return ("range", a, b, ext)
 
     def word(self):
@@ -694,6 +692,10 @@ class Gen:
             toks = []
             for _ in range(0 if self.r.chance(1, 12) else self.r.range(1, 4)):
                 toks.append(self.r.choice(sorted(SEPARATORS - {'"'})) if self.r.chance(1, 4) else self.word())
+                # more than one blank in front of a token that is not the first: blanks are part of the
+                # token text here, so rendering and expectation keep them (`" ".join`)
+                if len(toks) > 1 and self.r.chance(1, 3):
+                    toks[-1] = " " * self.r.range(1, 3) + toks[-1]
             return ("s", toks)
         if k == "o":
             n = 0 if self.r.chance(1, 12) else self.r.range(1, 5)
